@@ -94,6 +94,9 @@ def handle : Handler := fun op inp =>
       | .ok th =>
         return jObj [("ok", jList (fun p =>
           detail th p ((p.behemoth).getD (isBehemoth t.pairs.length cutoff p.leaves)) policy) ps)]
+  | "selection.assign" => some do
+      let cs ← asList natList (← field inp "census")
+      return jList (jOpt jNat) (cs.map assignFile)
   | _ => none
 
 end CTM.Drive.Selection
